@@ -242,7 +242,7 @@ pub fn prop(tier: Tier, seed: u64) -> Prop {
 
     // ---- (1) 1-D geometry sweep
     let algs: Vec<Alg> = fl.iter().flat_map(|f| [Alg::Conv(*f), Alg::Interp(*f)]).collect();
-    let dims = vec![nin_max as u64, nout_max as u64, 5, algs.len() as u64];
+    let dims = vec![nin_max as u64, nout_max as u64, 6, algs.len() as u64];
     let (d1, a1, b1) = (dims.clone(), algs.clone(), bes.clone());
     p.spaces.push(Space::new("1-D: n_in x n_out x crop x (7 filters + 4 custom) x {Conv,Interp}: model conformance + SIMD == portable (13 types, 2 orientations)", product(&dims), move |idx, ctx| {
         let mut d = [0usize; 4];
@@ -318,7 +318,7 @@ pub fn prop(tier: Tier, seed: u64) -> Prop {
         }
     }
     shapes.extend([(8, 8, 4, 4), (9, 7, 2, 3), (16, 5, 3, 2), (33, 9, 7, 5), (17, 31, 5, 9), (40, 3, 13, 2), (5, 40, 4, 13), (64, 64, 9, 9), (12, 10, 33, 31)]);
-    let dims5 = vec![shapes.len() as u64, 3, algs2.len() as u64, 2];
+    let dims5 = vec![shapes.len() as u64, 4, algs2.len() as u64, 2];
     let (d5, b5, sh5, a5) = (dims5.clone(), bes.clone(), shapes.clone(), algs2.clone());
     p.spaces.push(Space::new("2-D: shapes x crops x algorithms (Conv/Interp/SuperSampling, custom filters) x alpha on/off", product(&dims5), move |idx, ctx| {
         let mut d = [0usize; 4];
